@@ -124,7 +124,7 @@ func permute(site string, n int) []int {
 	return idx
 }
 
-func sortKeys[K comparable](keys []K) {
+func sortKeys[K comparable](keys []K, valOf func(K) reflect.Value) {
 	if len(keys) < 2 {
 		return
 	}
@@ -165,7 +165,22 @@ func sortKeys[K comparable](keys []K) {
 	for i := range ord {
 		ord[i] = i
 	}
-	sort.SliceStable(ord, func(i, j int) bool { return strs[ord[i]] < strs[ord[j]] })
+	var vstrs []string
+	sort.SliceStable(ord, func(i, j int) bool {
+		if strs[ord[i]] != strs[ord[j]] {
+			return strs[ord[i]] < strs[ord[j]]
+		}
+		if valOf == nil {
+			return false
+		}
+		if vstrs == nil {
+			vstrs = make([]string, len(keys))
+			for k := range keys {
+				vstrs[k] = canonString(valOf(keys[k]))
+			}
+		}
+		return vstrs[ord[i]] < vstrs[ord[j]]
+	})
 	out := make([]K, len(keys))
 	for i, o := range ord {
 		out[i] = keys[o]
@@ -192,7 +207,7 @@ func MapIterOf[M ~map[K]V, K comparable, V any](site string, m M) *MapIt[K, V] {
 	for k := range m {
 		keys = append(keys, k)
 	}
-	sortKeys(keys)
+	sortKeys(keys, func(k K) reflect.Value { return reflect.ValueOf(m[k]) })
 	p := permute(site, len(keys))
 	it.keys = make([]K, len(keys))
 	for i, j := range p {
@@ -239,11 +254,21 @@ func sortedReflectKeys(site string, v reflect.Value) []reflect.Value {
 			strs[i] = canonString(ks[i])
 		}
 	}
+	var vstrs []string // rendered values, only computed when two keys render alike (distinct pointers to equal data)
 	sort.SliceStable(ord, func(a, b int) bool {
 		if numeric {
 			return ks[ord[a]].Int() < ks[ord[b]].Int()
 		}
-		return strs[ord[a]] < strs[ord[b]]
+		if strs[ord[a]] != strs[ord[b]] {
+			return strs[ord[a]] < strs[ord[b]]
+		}
+		if vstrs == nil {
+			vstrs = make([]string, len(ks))
+			for i := range ks {
+				vstrs[i] = canonString(v.MapIndex(ks[i]))
+			}
+		}
+		return vstrs[ord[a]] < vstrs[ord[b]]
 	})
 	p := permute(site, len(ks))
 	out := make([]reflect.Value, len(ks))
